@@ -12,6 +12,9 @@ independently drawn configurations, user answers, HCI delays, optional corruptio
 and an optional reconnection phase (same roles, swapped roles). The virtual controller never asks
 the peripheral host for a key, so the harness emulates the LE Long Term Key Request for every
 LE Enable Encryption command of the central and compares the two keys.
+
+Harness trust base: TABLE_2_8/reference_method (own transcription of the specification), the
+UserDelegate user model, FaultFilter, LtkEmulation and the FIFO/hold replacement of Tap._forward.
 """
 
 from __future__ import annotations
@@ -54,11 +57,13 @@ ASSUMPTIONS = [
     'the virtual controller encrypts without asking the peripheral host for a key; the harness injects the '
     'LE Long Term Key Request event (same Rand/EDIV as the central\'s LE Enable Encryption command) into the '
     'peripheral host through its HCI tap and reads the key from its (Negative) Reply command; the reply '
-    'reaches the virtual controller, which answers Command Complete/Unknown Command (harmless)',
-    'both devices use their static random address on the link (the virtual link mis-routes LE data of '
-    'public-address connections, see C06); reconnection phases are generated only with the static random '
-    'address as identity address (or no identity distribution), so that a store lookup by link address is '
-    'the lookup by identity',
+    'reaches the virtual controller, which answers Command Complete/Unknown Command (harmless); Encryption '
+    'Change events and ACL data towards both hosts wait until that reply crossed the tap, as a real '
+    'controller finishes the encryption start procedure only then',
+    'both devices use their static random address on the link (at the time of writing the virtual link '
+    'mis-routed LE data of public-address connections, see C06); reconnection phases are generated only with '
+    'the static random address as identity address (or no identity distribution), so that a store lookup by '
+    'link address is the lookup by identity',
     'which LTK is the right one for a role is not decided; only that central and peripheral select the same '
     'key for the same request',
     'only the LE central initiates pairing; OOB association is covered in the table part only; '
@@ -1189,8 +1194,8 @@ def run(ctx) -> None:
     strata = [(i, r, sc) for i in range(5) for r in range(5) for sc in (False, True)]
     # per stratum: plain / negative answers / corrupted PDU / reconnection
     per = {
-        'plain': ctx.n(10, 48000 // 50), 'negative': ctx.n(12, 36000 // 50),
-        'fault': ctx.n(9, 24000 // 50), 'reconnect': ctx.n(7, 16000 // 50),
+        'plain': ctx.n(10, 32000 // 50), 'negative': ctx.n(12, 24000 // 50),
+        'fault': ctx.n(9, 16000 // 50), 'reconnect': ctx.n(7, 12000 // 50),
     }
     digests: list = []
     for k, (io_c, io_p, sc) in enumerate(strata):
